@@ -88,6 +88,7 @@ _FIELD_VALUE_FORBIDDEN_CTL_RE: Final[Pattern[str]] = re.compile(
 )
 VERSRE: Final[Pattern[str]] = re.compile(r"HTTP/(\d)\.(\d)", re.ASCII)
 DIGITS: Final[Pattern[str]] = re.compile(r"\d+", re.ASCII)
+_TARGET_CTL_RE: Final[Pattern[str]] = re.compile(r"[\x00-\x1f\x7f]")
 HEXDIGITS: Final[Pattern[bytes]] = re.compile(rb"[0-9a-fA-F]+")
 # chunk-ext is tokens and quoted strings: no control bytes except HTAB
 _CHUNK_EXT_FORBIDDEN_CTL_RE: Final[Pattern[bytes]] = re.compile(
@@ -692,6 +693,12 @@ class HttpRequestParser(HttpParser[RawRequestMessage]):
         if not TOKENRE.fullmatch(method):
             raise BadHttpMethod(method)
         method = method.upper()
+
+        # No control character is allowed in a request-target
+        # (https://www.rfc-editor.org/rfc/rfc3986#section-2).  URL parsing
+        # silently drops TAB, turning "/<TAB>/host" into "//host".
+        if _TARGET_CTL_RE.search(path):
+            raise InvalidURLError(path.encode("ascii", "backslashreplace").decode())
 
         # version
         match = VERSRE.fullmatch(version)
